@@ -2,7 +2,16 @@ SPEC = dict(
     props_file="C06",
     legs=[dict(family="cpc", focus="union", oracles=["union_ok"], profiles=["debug", "release"], n_quick=60, n_thorough=500,
                n_search=40, panic_is_violation=True,
-               mask=[10, 11, 12, 13, 14, 15, 16, 20, 21, 22, 23])],     # op 17 (image bytes) is judged by the oracle only
+               mask=[10, 11, 12, 13, 14, 15, 16, 20, 21, 22, 23, 24]),     # op 17 (image bytes) is judged by the oracle only
+          # boundary leg: unions of valid sketches that leave the domain (table capacity / 8C >= 475K).  The strict oracle fails on
+          # them (known findings c06-cpc-union-*, matched by the exact-matrix predicate kf_union_capacity); the comparison with
+          # the model ties the boundary: the model is Stuck exactly where the crate panics
+          dict(family="cpc", focus="union_edge", oracles=["union_ok"], profiles=["debug"], n_quick=None, n_thorough=None,
+               n_search=0, panic_is_violation=False, mask=[10, 11, 13, 14, 15, 16, 20, 21, 22, 23, 24]),
+          # the same boundary cases without an oracle: only model = crate, observation by observation (a failing oracle would
+          # hide a difference on the same case): Stuck in the model exactly at the op where the crate panics
+          dict(family="cpc", focus="union_edge", oracles=[], profiles=["debug"], n_quick=None, n_thorough=None,
+               n_search=0, panic_is_violation=False, mask=[10, 11, 13, 14, 15, 16, 20, 21, 22, 23, 24])],
     level_text="Theorems (Props/C06.v) over an executable model of cpc/union.rs (Model/CpcUnion.v: with_seed, update with reduce_k "
                "and the merge cases A (walk the sparse source into the accumulator, clone shortcut, graduation to a bit matrix), "
                "B, C, D, the three or_*_into_matrix helpers, walk_table_updating_sketch with row masking, to_sketch via the "
@@ -19,7 +28,14 @@ SPEC = dict(
                "c06_union_result_updatable: a result stays a valid sketch under further updates). Table capacity as in C05: the "
                "theorems assume that the two table walks of an update (reduce_k of a sparse accumulator, case A) never outgrow the "
                "accumulator's table in whatever order the pairs are visited (usteps_fit) and that a dense result's surprising values "
-               "fit the table to_sketch builds (result_fits). "
+               "fit the table to_sketch builds (result_fits). usteps_fit is dischargeable beyond the empty source: "
+               "c06_fits_any_sparse (if the OR of accumulator and source is still in the sparse range C < 3K/32, no visiting order "
+               "outgrows the table), used by c06_example_case_a (two overlapping sparse sketches through merge case A). Outside these "
+               "hypotheses the crate panics or leaves the sketch domain on VALID inputs (known findings c06-cpc-union-table-capacity: "
+               "walk in update(), table in to_sketch(); c06-cpc-union-result-outside-domain: result with offset > 56 that its own "
+               "deserialize rejects); the boundary leg (focus union_edge) replays them: the strict oracle fails, the matcher "
+               "kf_union_capacity accepts only the capacity situations recomputed from the exact matrices, and a second run of the "
+               "same cases without oracle demands model = crate op by op (the model is Stuck exactly where the crate panics). "
                "Commutativity/associativity (any permutation of the inputs) and idempotence (a repeated input) of lg_k, coupon "
                "count, matrix, offset and flavor (c06_cpc_union_order_irrelevant, c06_cpc_union_repetition_irrelevant, and the same on "
                "the Spec). c06_union_bitmatrix_not_sparse: a union in the BitMatrix state holds >= 3K/32 coupons (the code relies "
